@@ -202,7 +202,7 @@ func (x *executor) runOps(task int, ops []Op) {
 		}
 		// The text handed over in the caller's buffer is the caller's: the library
 		// keeps the slice, it must not write into it.
-		if b := x.w.Objects[op.Obj].Buf; b > 0 && b < len(callerBufs) && in.built && !x.relaxed[op.Obj] {
+		if b := x.w.Objects[op.Obj].Buf; b > 0 && b < len(callerBufs) && in.built && in.bufLoaded && !x.relaxed[op.Obj] {
 			t := x.w.Objects[op.Obj].Text
 			if len(t) > 0 && len(t) <= len(callerBufs[b]) && string(callerBufs[b][:len(t)]) != t {
 				ts.viol = append(ts.viol, Violation{Class: "unstable-value", Kind: op.Kind, Obj: op.Obj, Task: task, OpIdx: i,
